@@ -9,6 +9,7 @@ from harness import core
 
 COMPONENTS = {
     'C01': 'cachecomp', 'C05': 'cachecomp', 'C06': 'cachecomp',
+    'C02': 'filelockcomp', 'C12': 'filelockcomp', 'C13': 'filelockcomp',
 }
 
 
